@@ -56,6 +56,7 @@ func main() {
 	verif := flag.String("verif", "/verif", "verif root (evidence, known findings)")
 	overlayF := flag.String("overlay", "", "json file {path: content} applied as overlay (mutant mode)")
 	quiet := flag.Bool("q", false, "do not print OK lines")
+	dumpA := flag.String("dump-anchors", "", "developer: merge the type/field anchors queried in this run into this shape table")
 	cgKind := flag.String("cg", "vta", "call graph kind: vta|cha")
 	listMut := flag.Bool("list-mutants", false, "list registered mutants")
 	flag.Parse()
@@ -113,6 +114,14 @@ func main() {
 		os.Exit(1)
 	}
 	c.Tier = *tier
+	af := filepath.Join(*verif, "anchors.json")
+	if _, err := os.Stat(af); err != nil {
+		if exe, err2 := os.Executable(); err2 == nil { // scratch evidence directories: the committed table sits next to bin/
+			af = filepath.Join(filepath.Dir(filepath.Dir(exe)), "anchors.json")
+		}
+	}
+	buildAliases(c, af)
+	buildCanonNames(c)
 	r := newReport(*prop, *tier, seed, c)
 	r.quiet = *quiet
 	c.R = r
@@ -131,6 +140,15 @@ func main() {
 		}()
 		pc.Run(c, r)
 	}()
+	if *dumpA != "" {
+		dumpAnchors(c, *dumpA)
+	}
+	if len(aliasNotes) > 0 {
+		r.Extra["anchors_recognised_by_shape"] = aliasNotes
+		for _, n := range aliasNotes {
+			fmt.Println("NOTE " + n)
+		}
+	}
 	if len(roleUsed) > 0 {
 		r.Extra["anchors_resolved_by_role"] = roleUsed
 		for k, v := range roleUsed {
